@@ -48,11 +48,11 @@ func cloneHeads(hs []ipfslog.Entry) ([]ipfslog.Entry, error) {
 // tracker remembers what the harness itself did: the operation behind every
 // entry and the causal past of every write.
 type tracker struct {
-	ents map[string]model.Ent
-	ops  map[string]model.Op
-	past map[string]map[string]bool
+	ents   map[string]model.Ent
+	ops    map[string]model.Op
+	past   map[string]map[string]bool
 	author map[string]int
-	seq  []string // write order (global)
+	seq    []string // write order (global)
 }
 
 func newTracker() *tracker {
